@@ -98,12 +98,17 @@ def dispatch(ctx, binp):
                 except OSError:
                     time.sleep(0.05)
             tgt = "127.0.0.1:%d" % origin.port
-            rget = c19.http_exchange(("127.0.0.1", addr), ("GET http://%s/d HTTP/1.1\r\nHost: %s\r\nConnection: close\r\n\r\n" % (tgt, tgt)).encode())
-            rcon = c19.http_exchange(("127.0.0.1", addr), ("CONNECT %s HTTP/1.1\r\nHost: %s\r\n\r\n" % (tgt, tgt)).encode())
-            seen_get = [h for h in upstream.seen if h.startswith("GET ")]
-            seen_con = [h for h in upstream.seen if h.startswith("CONNECT ")]
-            obs = {"request": seen_get[0] if seen_get else "", "connect": seen_con[0] if seen_con else "",
-                   "response": rget.split("\r\n\r\n")[0], "connect-response": rcon.split("\r\n\r\n")[0]}
+            obs = {}
+            for pre in (False, True):
+                del upstream.seen[:]
+                mine = "".join("%s: c\r\n" % n for n in marker.values()) if pre else ""
+                upstream.extra = mine.encode()
+                rget = c19.http_exchange(("127.0.0.1", addr), ("GET http://%s/d HTTP/1.1\r\nHost: %s\r\n%sConnection: close\r\n\r\n" % (tgt, tgt, mine)).encode())
+                rcon = c19.http_exchange(("127.0.0.1", addr), ("CONNECT %s HTTP/1.1\r\nHost: %s\r\n%s\r\n" % (tgt, tgt, mine)).encode())
+                seen_get = [h for h in upstream.seen if h.startswith("GET ")]
+                seen_con = [h for h in upstream.seen if h.startswith("CONNECT ")]
+                obs[pre] = {"request": seen_get[0] if seen_get else "", "connect": seen_con[0] if seen_con else "",
+                            "response": rget.split("\r\n\r\n")[0], "connect-response": rcon.split("\r\n\r\n")[0]}
         finally:
             p.terminate()
             try:
@@ -117,13 +122,27 @@ def dispatch(ctx, binp):
                 continue
             ctx.evaluations += 1
             ctx.nontrivial.add("dispatch:%s" % json.dumps(dd, sort_keys=True))
-            head = obs[dd["kind"]]
+            head = obs[bool(dd.get("pre"))][dd["kind"]]
             if not head:
                 ctx.violation("C16:dispatch:no-message:" + dd["kind"], {"case": c, "obs": obs})
                 continue
-            present = set(k for k, name in marker.items() if ("\r\n%s: v" % name).lower() in head.lower())
-            if present != set(c["markers"]):
-                ctx.violation("C16:dispatch:%s" % dd["kind"], {"case": c, "markers_seen": sorted(present), "head": head[:400]})
+            if dd["kind"] == "connect-response":
+                # the 200 to a CONNECT is the proxy's own: only the absence of rule-made fields is stated
+                present = set(k for k, name in marker.items() if ("\r\n%s: v" % name).lower() in head.lower())
+                if present != set(c["markers"]):
+                    ctx.violation("C16:dispatch:%s" % dd["kind"], {"case": c, "markers_seen": sorted(present), "head": head[:400]})
+                else:
+                    ctx.traces_ok += 1
+                continue
+            # the values under each marker name, in order, as the model's rule application leaves them
+            seen, want = {}, {}
+            for k, name in marker.items():
+                seen[k] = [ln.split(":", 1)[1].strip() for ln in head.split("\r\n")[1:] if ln.lower().startswith(name.lower() + ":")]
+                want[k] = ["".join(v) for v in c["vals"][k]]
+            if seen != want:
+                kinds = [k for k in marker if seen[k] != want[k]]
+                what = "dropped" if any(len(seen[k]) < len(want[k]) for k in kinds) else "added"
+                ctx.violation("C16:dispatch:%s:%s" % (dd["kind"], what), {"case": c, "values_seen": seen, "values_expected": want, "head": head[:400]})
             else:
                 ctx.traces_ok += 1
     ctx.sample({"dispatch_case": cases[0] if cases else None})
